@@ -17,7 +17,7 @@ META = {
 }
 
 SIZES = {"quick": dict(ncases=150, nhist=40, steps=25, chunk=170),
-         "thorough": dict(ncases=1500, nhist=600, steps=30, chunk=1500)}
+         "thorough": dict(ncases=1000, nhist=300, steps=30, chunk=1500)}
 
 
 def text(cps):
